@@ -539,6 +539,18 @@ func (s *scenario) audit() string {
 				}
 				fail(fmt.Sprintf("FAIL sig=l3/lease/%s zone=%s cdbucket=%d nds=%d rem=%s allowed=%s", why, zone, lin, e.NDS, rem, best.bound[lin]-now))
 			}
+			if lin == 1 && strictDS() {
+				// strict reading of the property text: the DS TTL bounds the lease in every bucket
+				var b0 *inst
+				for _, c := range cands {
+					if c.hasBound[0] && (b0 == nil || c.bound[0] > b0.bound[0]) {
+						b0 = c
+					}
+				}
+				if b0 != nil && abs > b0.bound[0]+slack {
+					fail(fmt.Sprintf("FAIL sig=l3/lease/cd1-bucket-ignores-ds-ttl zone=%s nds=%d rem=%s allowed=%s", zone, e.NDS, rem, b0.bound[0]-now))
+				}
+			}
 			if prev, ok := s.prevAbs[e.Key]; ok && abs > prev+slack && s.prevRefs[e.Key] == refs {
 				fail(fmt.Sprintf("FAIL sig=l3/lease/extended-without-parent-referral zone=%s by=%s", zone, abs-prev))
 			}
@@ -699,11 +711,23 @@ func execQuery(s *scenario, f []string) vlib.Res {
 			// withdrawn / re-pointed delegation the name must resolve to what the parent now
 			// says. Judged only when three attempts (10 virtual seconds apart, so no cached
 			// failure is replayed) all fail — a single upstream timeout raises nothing.
-			past := false
+			// The internal name-server address lookups of an insecure zone ride the CD=1
+			// bucket even for a CD=0 client, so "past the lease" means past both lineages.
+			past, pastOwn := false, false
 			for _, i := range s.insts {
-				if i.withdrawn && i.hasBound[lin] && vq >= i.bound[lin]+slack && dns.IsSubDomain(i.name, lcn(f[2])) {
-					past = true
+				if !i.withdrawn || !dns.IsSubDomain(i.name, lcn(f[2])) {
+					continue
 				}
+				if i.hasBound[lin] && vq >= i.bound[lin]+slack {
+					pastOwn = true
+					if o := 1 - lin; !i.hasBound[o] || vq >= i.bound[o]+slack {
+						past = true
+					}
+				}
+			}
+			sig := "l3/reply/not-following-parent"
+			if !past && pastOwn && strictDS() {
+				past, sig = true, "l3/reply/not-following-parent/cd1-lineage-live"
 			}
 			if tr := s.w.Truth(f[2], qt); past && verdict == "ok" && (tr.Kind == "answer" || tr.Kind == "nodata" || tr.Kind == "nxdomain") && tr.Status != l3.Bogus {
 				failed := 1
@@ -715,7 +739,7 @@ func execQuery(s *scenario, f []string) vlib.Res {
 					}
 				}
 				if failed == 3 {
-					verdict = fmt.Sprintf("FAIL sig=l3/reply/not-following-parent q=%s/%s want=%s", lcn(f[2]), f[3], tr.Kind)
+					verdict = fmt.Sprintf("FAIL sig=%s q=%s/%s want=%s", sig, lcn(f[2]), f[3], tr.Kind)
 				}
 			}
 		}
@@ -860,6 +884,44 @@ func (s *scenario) markWithdrawn(i *inst) {
 var leaseTTLs = []int{1, 2, 3, 5, 10, 30, 60, 300, 3600, 43199, 43200}
 var longTTLs = []int{43201, 86400, 172800}
 
+// strictDS: judge the CD=1 bucket of the delegation cache by min(NS, DS) as well (the
+// literal property text). On the unchanged tree that bucket retains no DS set and
+// leases for the NS TTL (notes/C08.md), so this is only switched on by
+// VERIF_C08_STRICT_DS=1 or once both signatures are listed as known findings.
+var strictOnce sync.Once
+var strictOn bool
+
+func strictDS() bool {
+	strictOnce.Do(func() {
+		switch os.Getenv("VERIF_C08_STRICT_DS") {
+		case "1":
+			strictOn = true
+			return
+		case "0":
+			return
+		}
+		strictOn = knownFinding("l3/lease/cd1-bucket-ignores-ds-ttl") && knownFinding("l3/reply/not-following-parent/cd1-lineage-live")
+	})
+	return strictOn
+}
+
+func knownFinding(sig string) bool {
+	dir := os.Getenv("VERIF_DIR")
+	if dir == "" {
+		dir = "/verif"
+	}
+	b, err := os.ReadFile(dir + "/known_findings.jsonl")
+	if err != nil {
+		return false
+	}
+	for _, ln := range strings.Split(string(b), "\n") {
+		if strings.Contains(ln, "\"C08\"") && strings.Contains(ln, "\"known\"") && strings.Contains(ln, "\""+sig+"\"") {
+			return true
+		}
+	}
+	return false
+}
+
 // allowCeilingGap: delegations whose NS/DS TTLs exceed the 12 h ceiling are only
 // generated when asked for (VERIF_C08_CEILING=1) or once the candidate finding
 // they expose on the unchanged tree (notes/C08.md) is listed in known_findings.jsonl.
@@ -875,26 +937,7 @@ func allowCeilingGap() bool {
 		case "0":
 			return
 		}
-		dir := os.Getenv("VERIF_DIR")
-		if dir == "" {
-			dir = "/verif"
-		}
-		b, err := os.ReadFile(dir + "/known_findings.jsonl")
-		if err != nil {
-			return
-		}
-		a, b2 := false, false
-		for _, ln := range strings.Split(string(b), "\n") {
-			if strings.Contains(ln, "\"C08\"") && strings.Contains(ln, "\"known\"") {
-				if strings.Contains(ln, "l3/reply/served-past-12h-ceiling") {
-					a = true
-				}
-				if strings.Contains(ln, "l3/lease/descendant-outlives-ancestor/ceiling-reanchored") {
-					b2 = true
-				}
-			}
-		}
-		ceilingOn = a && b2
+		ceilingOn = knownFinding("l3/reply/served-past-12h-ceiling") && knownFinding("l3/lease/descendant-outlives-ancestor/ceiling-reanchored")
 	})
 	return ceilingOn
 }
